@@ -81,7 +81,9 @@ func (t *Tree) setBlock(name string, body *BlockNode) {
 }
 
 func (t *Tree) enrichError(err error) error {
-	if err, ok := err.(ParsingError); ok {
+	// Not ParsingError: the error types embed a Pos field, so none of them has
+	// the Pos method that interface asks for.
+	if err, ok := err.(interface{ setTree(t *Tree) }); ok {
 		err.setTree(t)
 	}
 	return err
